@@ -220,7 +220,14 @@ def mono(e: ast.AST, is_var: Callable, resolve: Callable = None, depth: int = 0)
     return "?" if _uses(e, is_var, resolve) else "0"
 
 
+POSITIVE_NAMES = ("resolution", "granularity", "scheduleGranularity", "slot_duration")     # stated assumption: > 0
+
+
 def _pos_const(e) -> bool:
+    if isinstance(e, ast.Attribute) and e.attr in POSITIVE_NAMES:
+        return True
+    if isinstance(e, ast.Name) and e.id in POSITIVE_NAMES:
+        return True
     return isinstance(e, ast.Constant) and isinstance(e.value, (int, float)) and not isinstance(e.value, bool) and e.value > 0
 
 
